@@ -42,3 +42,10 @@ CLAIMED['C19'] = dict(
   text='Decision clause: exhaustive over hostNetwork x namespace x label x annotation x never/always selectors x policy (1200 rows, x8 installation variants in thorough), every row equal to the reference precedence table and stable under re-submission and unrelated metadata. Idempotency/preservation: hundreds (quick) to thousands (thorough) of pods under the shipped templates that render for pods (sidecar, gateway, grpc-agent, grpc-simple); user containers, init containers and volumes keep order, image, command, args, ports. Re-invocation is NOT idempotent for five trigger families listed as known findings; any other difference between first and second injection is still a violation.',
   note='Trusted: the reference decision table (our reading of the documented precedence; an illegal policy value disables injection as documented by the injector), JSON-patch application, canonical JSON comparison. Repo TEST-only templates (custom, spire) are excluded; templates needing a ServiceAccount context (waypoint, kube-gateway, agentgateway) do not render for pods and are not covered. AdmissionReview v1 only; OpenShift and node auto-detection branches not driven.',
 )
+
+CLAIMED['C16'] = dict(
+  category='exploration',
+  technique='runtime monitoring: PRNG-built krt collection DAGs (public API only) run under concurrent PRNG input histories with the race detector; at logical quiescence (stop-the-world goroutine-state fixpoint) List/GetKey/Index.Lookup/filtered Fetch are compared with an independent recomputation over plain maps, and every subscriber event stream is run through a per-key automaton and replayed against the final contents',
+  text='Held (up to listed known findings, each confined to a stratum of programs using the named feature) on every program x history executed: hundreds (quick) to thousands (thorough) of DAGs over one-to-one, one-to-many (fixed and moving keys), singleton, join (checked/unchecked), merge join, nested join with merge, map, index and index-as-collection shapes, with late subscribers and late-built nodes; millions of stream events checked in thorough. A state mismatch must persist over two further barrier rounds before it is reported.',
+  note='Trusted: the reference recomputation generated from the same descriptor as the krt transformation (shares no krt code), the quiescence detector (all other goroutines parked and none in a krt sync wait), coalesced updates accepted as the EventStream contract allows. Not driven: informer-backed inputs, status collections, Index.AsCollection event streams. Programs containing a known-bad feature (nil labels with FilterSelects, overlapping join keys, moving many-keys, racing nested-join membership) report under their stratum key, which can hide a different defect confined to the same nodes. A krt goroutine nil dereference on concurrent nested-join member removal (repro: krtmon repro crash) is kept out of the generator and described in DESIGN.md.',
+)
